@@ -5,9 +5,9 @@ Import ListNotations.
 
 
 Ltac frame_io HL2 :=
-  apply (L2_frame _ _) with (11 := HL2); cbn; try reflexivity; intro; split; reflexivity.
+  apply (L2_frame _ _) with (11 := HL2); cbn; try reflexivity; try (intro; reflexivity); try (let X := fresh in intro X; exact X); intro; split; reflexivity.
 Ltac frame_wk HL2 me Hw :=
-  apply (L2_frame _ _) with (11 := HL2); cbn; try reflexivity;
+  apply (L2_frame _ _) with (11 := HL2); cbn; try reflexivity; try (intro; reflexivity); try (let X := fresh in intro X; exact X);
   let j := fresh "j" in intro j; unfold upd; destruct (Nat.eqb_spec j me); [subst j; rewrite Hw|]; split; reflexivity.
 
 Ltac slv := solve [ intuition (eauto; try discriminate; try congruence; try lia) ].
